@@ -24,11 +24,13 @@ tup_len = z3.Function("tup_len", V.Lst, I)
 tup_arr = z3.Function("tup_arr", V.Lst, V.ArrIV)
 make_key = z3.Function("make_key", Val, Val, Val)    # functools._make_key(args, kwds, typed=True)
 make_key_untyped = z3.Function("make_key_untyped", Val, Val, Val)
-wref = z3.Function("wref", Val, Val)                 # weakref.ref(obj)
+wref = z3.Function("wref", Val, Val)                 # weakref.ref(obj): equal refs <=> referents == (T-WREF)
+key_cons = Val.VKey                                  # key of (x, *rest): a constructor, hence injective (T-KEY)
 td_seconds = z3.Function("td_seconds", I, R)         # timedelta.total_seconds()
 is_coro_fn = z3.Function("is_coro_fn", Val, B)
 callable_ = z3.Function("callable_", Val, B)
 tb_of = z3.Function("tb_of", Val, Val)
+id_of = z3.Function("id_of", Val, I)
 
 USED: set[str] = set()      # names of trusted specs exercised (per process; reset by the driver)
 
@@ -41,6 +43,7 @@ def background_axioms(ct: V.ClassTable) -> list:
     l = z3.Const("l!", V.Lst)
     s = z3.Int("s!")
     v = z3.Const("v!", Val)
+    w = z3.Const("w!", Val)
     ax = [
         z3.ForAll([l], tup_len(l) >= 0, patterns=[tup_len(l)]),
         z3.ForAll([s], str_len(s) >= 0, patterns=[str_len(s)]),
@@ -215,12 +218,38 @@ def seq_view(it, v):
     return None
 
 
+def tuple_items(it, v, maxlen: int = 6):
+    """Element terms of a tuple whose length is determined by the path condition."""
+    st = it.st
+    l = st.simp(V.items(v))
+    conc = V.concrete_list(l)
+    if conc is not None:
+        return conc
+    cache = st.ghost.setdefault("$tuple_items", {})
+    key = (l.get_id(), len(st.pc))
+    if key in cache:
+        return cache[key]
+    out = []
+    cur = l
+    res = None
+    for _ in range(maxlen + 1):
+        if st.entails(V.is_nil(cur)):
+            res = out
+            break
+        if not st.entails(V.is_cons(cur)):
+            break
+        out.append(st.simp(V.hd(cur)))
+        cur = st.simp(V.tl(cur))
+    cache[key] = res
+    return res
+
+
 def concrete_items(it, v):
     """Python list of element terms when the value is a sequence of syntactically known length."""
     st = it.st
     k = it.kind(v)
     if k == "tuple":
-        return V.concrete_list(st.simp(V.items(v)))
+        return tuple_items(it, v)
     if k == "ref":
         c = st.class_id_of(v)
         if c is not None and it.ct.name(c) in ("list", "deque"):
@@ -275,6 +304,12 @@ def new_set(it, items: list) -> z3.ExprRef:
 def concat_literal(it, segs, kind: str) -> z3.ExprRef:
     """[*a, x, *b] with symbolic-length parts: result window defined with a lambda array."""
     st = it.st
+    if kind == "tuple" and segs and segs[-1][0] == "star" and all(k == "item" for k, _ in segs[:-1]) \
+            and it.kind(segs[-1][1]) == "tuple":
+        l = V.items(segs[-1][1])            # (x1, ..., xn, *t) with t a tuple: exact cons structure
+        for _, x in reversed(segs[:-1]):
+            l = V.cons(x, l)
+        return V.VTup(l)
     pos = z3.IntVal(0)
     i = z3.Int("i!cat")
     body = V.VNone
@@ -397,6 +432,7 @@ def new_dict(it, cls: str = "dict", items: list | None = None) -> z3.ExprRef:
 def dict_set(it, d, k, v) -> None:
     st = it.st
     p = dict_parts(it, d)
+    st.instantiate_at(k)
     if st.decide(z3.Select(p["has"], k), "dict.set:present"):
         st.put(d, "$dval", z3.Store(p["val"], k, v))
     else:
@@ -490,6 +526,13 @@ def getitem(it, obj, idx, node=None) -> z3.ExprRef:
         n = it.as_num(idx)
         if n is None or n[1] != "int":
             raise Unsupported("non-integer sequence index")
+        if k == "tuple" and z3.is_int_value(st.simp(n[0])):
+            elems = tuple_items(it, obj)
+            if elems is not None:
+                j = st.simp(n[0]).as_long()
+                if -len(elems) <= j < len(elems):
+                    return elems[j]
+                raise PyRaise(it.new_exc("IndexError"), "tuple index out of range")
         arr, lo, hi = seq_view(it, obj)
         i = n[0]
         ln = hi - lo
@@ -895,6 +938,10 @@ def _dict_get(it, lv, ca, node):
     k = ca.pos[0]
     default = ca.pos[1] if len(ca.pos) > 1 else V.VNone
     p = dict_parts(it, d)
+    st.instantiate_at(k)
+    c = st.contract
+    if c is not None and hasattr(c, "on_dict_get"):
+        c.on_dict_get(it, d, k)
     if st.decide(z3.Select(p["has"], k), f"dict.get@{it.pos(node)}:hit"):
         return st.simp(z3.Select(p["val"], k))
     return default
@@ -921,6 +968,8 @@ def _popitem(it, lv, ca, node):
     d = lv.bound
     last = ca.arg(0, "last")
     p = dict_parts(it, d)
+    st.instantiate_at(p["lo"])
+    st.instantiate_at(st.simp(p["hi"] - 1))
     if not st.decide(p["hi"] > p["lo"], f"popitem@{it.pos(node)}:nonempty"):
         raise PyRaise(it.new_exc("KeyError"), "popitem from an empty dict")
     is_last = True if last is None else st.simp(it.truthy(last))
@@ -960,9 +1009,20 @@ def _make_key(it, lv, ca, node):
     args = ca.arg(0, "args")
     kwds = ca.arg(1, "kwds")
     typed = ca.arg(2, "typed")
+    used("T-KEY")
+    lead = []
+    l = it.st.simp(V.items(args)) if it.kind(args) == "tuple" else None
+    while l is not None and V.app_name(l) == "cons":
+        lead.append(l.arg(0))
+        l = it.st.simp(l.arg(1))
+    rest = args if not lead else V.VTup(l)
     if typed is not None and z3.is_true(it.st.simp(it.truthy(typed))):
-        return make_key(args, kwds)
-    return make_key_untyped(args, kwds)
+        k = make_key(rest, kwds)
+    else:
+        k = make_key_untyped(rest, kwds)
+    for x in reversed(lead):
+        k = key_cons(x, k)
+    return k
 
 
 @spec("weakref.ref")
@@ -1260,3 +1320,47 @@ def _timer_cancel(it, lv, ca, node):
     used("T-TIMER")
     it.st.put(lv.bound, "$tcancelled", it.mk_bool(True))
     return V.VNone
+
+
+# ------------------------------------------------------------------------------------------------
+# asyncio.shield (T-SHIELD): the awaiter receives the inner outcome; cancelling the awaiter does
+# not cancel the inner task
+# ------------------------------------------------------------------------------------------------
+@spec("asyncio.shield")
+def _shield(it, lv, ca, node):
+    from .interp import AwaitableV
+    used("T-SHIELD")
+    return it.st.reg_fun(AwaitableV("shield", {"inner": ca.pos[0]}))
+
+
+@spec("await:shield")
+def _await_shield(it, aw, idx, node):
+    st = it.st
+    inner = aw.data["inner"]
+    s = fstate(it, inner)
+    c = st.contract
+    alts = [("result", s == F_RESULT), ("exception", s == F_EXC), ("inner-cancelled", s == F_CANCELLED)]
+    if c is not None and c.cancel_awaiting_task(it, aw, idx):
+        alts.append(("waiter-cancelled", True))
+    j = st.fork(f"await#{idx}:shield", alts)
+    if j == 0:
+        return fval(it, inner)
+    if j == 1:
+        raise PyRaise(fval(it, inner), "shielded task failed")
+    if j == 2:
+        raise PyRaise(it.new_exc("CancelledError"), "shielded task was cancelled")
+    # the inner task is untouched (T-SHIELD)
+    raise PyRaise(it.new_exc("CancelledError"), "waiter cancelled while awaiting shield")
+
+
+@spec("builtins.id")
+def _id(it, lv, ca, node):
+    used("T-ID")
+    # T-ID: id() is injective on objects alive at the same time - stated as ground facts between
+    # all objects whose id was taken on this path (no quantified axiom needed)
+    seen = it.st.ghost.setdefault("$id_args", [])
+    x = ca.pos[0]
+    for y in seen:
+        it.st.assume(z3.Implies(id_of(x) == id_of(y), x == y))
+    seen.append(x)
+    return V.VInt(id_of(x))
